@@ -178,7 +178,7 @@ func TestC13(t *testing.T) {
 			}
 		}
 		// 3. the shared byte-level generators, for exclusivity in depth
-		e.feed(feedOpts{counts: 2, shortlexQ: 4, shortlexT: 5, sweepQ: 60, sweepT: 3000, mutQ: 20000, mutT: 1000000, nextByte: true, alignment: true},
+		e.feed(feedOpts{counts: 2, templateSweep: true, shortlexQ: 4, shortlexT: 5, sweepQ: 60, sweepT: 3000, mutQ: 20000, mutT: 1000000, nextByte: true, alignment: true},
 			func(kind string, in []byte) error { return eval(kind, in) })
 	})
 }
